@@ -119,7 +119,8 @@ fn enabled(sc: &Scenario, model: &[RefSeq], hist: &[Ev]) -> Vec<Ev> {
         if m.done { continue; } // nothing is sent for a sequence that has been delivered
         let mut cands = vec![Ev::Header(s)];
         for id in 1..q.n { cands.push(Ev::Cont(s, id)); }
-        if sc.bad_events { cands.push(Ev::Cont(s, 0)); cands.push(Ev::Cont(s, q.n + 1)); }
+        // ids outside 1..n: zero, n+1, and ids whose low 32 bits are a valid id (2^32 + 1, 2^32 + n)
+        if sc.bad_events { cands.push(Ev::Cont(s, 0)); cands.push(Ev::Cont(s, q.n + 1)); cands.push(Ev::Cont(s, (1u64 << 32) + 1)); if q.n > 1 { cands.push(Ev::Cont(s, (1u64 << 32) + q.n)); } }
         for c in cands {
             let times = hist.iter().filter(|e| **e == c).count();
             let is_bad = matches!(&c, Ev::Cont(_, id) if *id == 0 || *id > q.n);
@@ -246,9 +247,10 @@ fn timed_expiry(rep: &Report) -> serde_json::Value {
         }
         inconclusive.fetch_add(1, std::sync::atomic::Ordering::Relaxed);
     });
-    // the other half: silence longer than the timeout
-    for first in [3u64, 1] {
+    // the other half: silence longer than the timeout (also on an assembler that was cleared before)
+    for first in [3u64, 1, 103, 101] {
         let mut a = FragmentAssembler::with_timeout(Duration::from_millis(150));
+        let first = if first > 100 { let _ = a.start_fragment(4u64, 2, None, vec![0]); a.clear(); first - 100 } else { first };
         let _ = if first == 3 { a.start_fragment(5u64, 3, None, vec![1]) } else { a.add_fragment(5u64, 1, vec![1]) };
         std::thread::sleep(Duration::from_millis(400));
         let dropped = a.cleanup_expired();
